@@ -99,7 +99,30 @@ def _failure_fails_root(sup, node, term):
         if e:
             succ_edges.append((sn, e[1], (sn[0], e[2])))
     if not succ_edges:
-        return False
+        # the result is never taken apart: it may still be what the root returns, as it is or through combinators that
+        # keep its variant (`writeln!(w).map_err(Error::from)` returned by a helper and then by the method). Decided by
+        # assuming the call failed and looking at every root return that is reachable from there.
+        ps = PathSens(sup)
+        ps.assume[node] = (("var", 1), None)
+        entry_states = ps.explore([(sup.entry, {})])
+        starts = []
+        for f in entry_states.get(node, []):
+            for lab, m, f2 in ps.step(node, f):
+                if lab not in ("call", "maycall"):
+                    starts.append((m, f2))
+        reached = ps.explore(starts)
+        seen_ret = False
+        for n in reached:
+            if n[0] or sup.root.blocks[n[1]]["term"]["k"] != "return":
+                continue
+            for st in reached[n]:
+                seen_ret = True
+                f_end = dict(st)
+                for s_ in sup.root.blocks[n[1]]["stmts"]:
+                    ps._stmt(f_end, (), s_)
+                if f_end.get(((), 0)) != ("var", 1):
+                    return False
+        return seen_ret and not ps.overflow
     ps = PathSens(sup)
     entry_states = ps.explore([(sup.entry, {})])
     starts = []
@@ -762,7 +785,7 @@ def r05_8(ctx):
 @rule("R03.6", 3, "the YAML chunk reader cuts its capture buffer at `mark - offset of the buffer's first byte`: wherever an event offset handed to the reader meets the reader's start-offset field in a subtraction, the offset is the minuend; and the method that cuts also moves the field to that offset", ["C03", "C05", "C02"])
 def r03_6(ctx):
     lib = ctx.lib
-    crs = [b for b in lib.bodies if b.raw.get("impl_trait") == "std::io::Read" and b.name == "read" and any((fn_of(t) or {}).get("name") == "extend_from_slice" for _, t in b.calls())]
+    crs = common.chunk_readers(ctx.facts)
     ctx.need(len(crs) == 1, "capturing chunk reader not found")
     cr = crs[0]
     cr_adt = cr.raw.get("impl_self_adt")
@@ -888,7 +911,7 @@ def r03_5(ctx):
     polls = [n for n, b_, t in sup.calls() if _is_parser_poll(lib, b_, t)]
     ctx.need(polls, "parser poll not found in the chunker")
     # the chunk reader: the capturing io::Read of R05.5
-    crs = [b for b in lib.bodies if b.raw.get("impl_trait") == "std::io::Read" and b.name == "read" and any((fn_of(t) or {}).get("name") == "extend_from_slice" for _, t in b.calls())]
+    crs = common.chunk_readers(ctx.facts)
     ctx.need(len(crs) == 1, "capturing chunk reader not found")
     cr_adt = crs[0].raw.get("impl_self_adt")
     WANT = {"YAML_DOCUMENT_START_EVENT": "start_mark", "YAML_DOCUMENT_END_EVENT": "end_mark"}
@@ -1170,7 +1193,7 @@ def _is_parser_poll(lib, body, t):
 @rule("R05.5", 3, "the YAML chunker's capture buffer is emptied once per document (bounded by the largest document, not the stream)", ["C05"])
 def r05_5(ctx):
     lib = ctx.lib
-    crs = [b for b in lib.bodies if b.raw.get("impl_trait") == "std::io::Read" and b.name == "read" and any((fn_of(t) or {}).get("name") == "extend_from_slice" for _, t in b.calls())]
+    crs = common.chunk_readers(ctx.facts)
     ctx.need(len(crs) == 1, "capturing chunk reader not found")
     cr = crs[0]
     cr_adt = cr.raw.get("impl_self_adt")
